@@ -734,7 +734,7 @@ Definition prepared (r : rx) : Prop :=
      if compl
      then f_suffix (r_facts r) = P /\ f_min (r_facts r) = len P /\ f_max (r_facts r) = len P
      else accepted_length_cached (r_prog r) = Some (f_min (r_facts r), f_max (r_facts r)) /\
-          constant_suffix (r_prog r) = Some (f_suffix (r_facts r))).
+          constant_suffix_b (r_prog r) = Some (f_suffix (r_facts r))).
 
 Theorem find_ok_prepared : forall F r, prepared r -> find_ok F true r.
 Proof.
